@@ -12,6 +12,8 @@
 #include <parmcb/parmcb_approx_sva_trees_tbb.hpp>
 #endif
 #include <list>
+#include <map>
+#include <boost/property_map/property_map.hpp>
 #include <string>
 #include <vector>
 #include "bgl.hpp"
@@ -70,9 +72,15 @@ W run_with_output(vb::Built<W> &b, CycleList<W> &cycles, Call call) {
     return ret;
 }
 
-template<class W>
-W run_exact(int variant, vb::Built<W> &b, CycleList<W> &cycles) {
-    auto wm = boost::get(boost::edge_weight, b.g);
+// Kind of weight map the caller hands in: 0 = the graph's interior edge_weight property (what every test and demo uses),
+// 1 = an EXTERIOR map (associative_property_map over a std::map) while the interior property holds decoy values
+// (the order of the true weights reversed). The entry points take "a weight map"; code that reads weights from the graph
+// instead of the map it was given works only for kind 0. Exact entry points only (the approximate ones are documented to
+// copy the interior property into their spanner and do not accept other maps).
+inline int &wmap_kind() { static int k = 0; return k; }
+
+template<class W, class WM>
+W run_exact_with_map(int variant, vb::Built<W> &b, CycleList<W> &cycles, WM wm) {
     switch (variant) {
     case SIGNED: return run_with_output<W>(b, cycles, [&](auto out) { return parmcb::mcb_sva_signed(b.g, wm, out); });
     case FVS: return run_with_output<W>(b, cycles, [&](auto out) { return parmcb::mcb_sva_fvs_trees(b.g, wm, out); });
@@ -84,6 +92,23 @@ W run_exact(int variant, vb::Built<W> &b, CycleList<W> &cycles) {
 #endif
     }
     fprintf(stderr, "variant %d not compiled in\n", variant); exit(2);
+}
+
+template<class W>
+W run_exact(int variant, vb::Built<W> &b, CycleList<W> &cycles) {
+    auto interior = boost::get(boost::edge_weight, b.g);
+    if (wmap_kind() == 0) return run_exact_with_map<W>(variant, b, cycles, interior);
+    typedef typename vb::Built<W>::Edge Edge;
+    std::map<Edge, W> ext;
+    std::vector<W> truth(b.edges.size());
+    W lo = W(), hi = W();
+    for (std::size_t i = 0; i < b.edges.size(); ++i) { truth[i] = boost::get(interior, b.edges[i]); ext[b.edges[i]] = truth[i]; if (i == 0 || truth[i] < lo) lo = truth[i]; if (i == 0 || hi < truth[i]) hi = truth[i]; }
+    for (std::size_t i = 0; i < b.edges.size(); ++i) boost::put(interior, b.edges[i], (W) (lo + hi - truth[i]));     // decoy: order reversed, same range
+    W ret = W();
+    try { ret = run_exact_with_map<W>(variant, b, cycles, boost::associative_property_map<std::map<Edge, W>>(ext)); }
+    catch (...) { for (std::size_t i = 0; i < b.edges.size(); ++i) boost::put(interior, b.edges[i], truth[i]); throw; }
+    for (std::size_t i = 0; i < b.edges.size(); ++i) boost::put(interior, b.edges[i], truth[i]);
+    return ret;
 }
 
 template<class W>
